@@ -42,6 +42,11 @@ CHECKS = {
             "canonical dump compared with the denotation computed by an independent conformant parser; the reused-stream "
             "history variant exposes state leaking between parses.",
             "python3 json is the reference; the grammar is sampled, not enumerated", "3/C06"),
+    "C14": ("model-based runtime monitor (std::vector / std::basic_string lock-step models) under ASan+UBSan+ledger, exact-fit hook; exhaustive copy-length sweep",
+            "Random histories over aliased variables with the whole state compared after every step; the exact-fit growth "
+            "hook puts the logical end next to the red zone; Memory::Copy/SetToZero are enumerated for every length "
+            "0..4096 at all 32x32 misalignments in scalar, SSE2 and AVX2 builds.",
+            "histories are sampled; models are the C++ standard containers", "3/C14"),
 }
 
 PENDING = {}
